@@ -195,7 +195,13 @@ func GenFilterFor(t *rapid.T, kind string, p *Pool) *refmodel.Filter {
 		n := rapid.IntRange(1, 3).Draw(t, "nargs")
 		f := &refmodel.Filter{Op: op}
 		for i := 0; i < n; i++ {
-			f.Args = append(f.Args, hexArg(rapid.SampledFrom(p.Addrs).Draw(t, "arg")))
+			a := rapid.SampledFrom(p.Addrs).Draw(t, "arg")
+			if rapid.IntRange(0, 3).Draw(t, "fragment") == 0 {
+				// a fragment of an address next to whole ones (contains matches substrings)
+				lo := rapid.IntRange(0, 12).Draw(t, "fraglo")
+				a = a[lo : lo+rapid.IntRange(2, 8).Draw(t, "fraglen")]
+			}
+			f.Args = append(f.Args, hexArg(a))
 		}
 		return f
 	case "bytes":
